@@ -124,15 +124,34 @@ class SvgPicture:
         return self._paths[k]
 
     # evaluation ----------------------------------------------------------
+    def inherited(self, el):
+        """fill / fill-opacity / fill-rule in force for the children of el's parent chain (nearest ancestor wins)"""
+        inh = {"fill": "black"}
+        chain = []
+        a = el.getparent()
+        while a is not None:
+            chain.append(a)
+            a = a.getparent()
+        for a in reversed(chain):
+            for k in _INHERITED:
+                if a.get(k) is not None:
+                    inh[k] = a.get(k)
+        return inh
+
     def at_element(self, el_id, p):
         """p in the user space of the element's parent (for OT-SVG glyph elements that are
         children of the root without a viewBox: the document user space)."""
-        return self.ev(self.ids[el_id], p, {"fill": "black"})
+        el = self.ids[el_id]
+        return self.ev(el, p, self.inherited(el))
 
     def at_doc(self, p):
         out = (0, 0, 0, 0)
+        inh = {"fill": "black"}
+        for k in _INHERITED:
+            if self.root.get(k) is not None:
+                inh[k] = self.root.get(k)
         for ch in self.root:
-            out = over(self.ev(ch, p, {"fill": "black"}), out)
+            out = over(self.ev(ch, p, inh), out)
         return out
 
     def ev(self, el, p, inh):
